@@ -146,6 +146,131 @@ def _short(msgs):
 
 
 # ---------------------------------------------------------------------------------------------
+# (c) send side: several senders on one connection (NetworkClient.call from several threads, a reply racing a pushed call
+# on the server) each run the real stream_send_msg on the same writer.  The environment decides at every drain() whether
+# the transport buffer is below the high-water mark (drain returns at once) or above it (drain suspends for one / three loop
+# iterations, the other senders run meanwhile).  Payload classes: small, larger than asyncio's default high-water mark of
+# 64 KiB (the size from which a real drain() suspends), several times that.  Oracle: what was written to the connection,
+# read back by the real stream_recv_msg, is exactly the sent messages, each intact, each once.
+
+SEND_SIZES = {'small': 10, 'big': 70000, 'huge': 200000}
+DRAIN = ('returns at once', 'suspends 1 iteration', 'suspends 3 iterations')
+
+
+def send_configs(quick):
+    two = [('small', 'small'), ('big', 'small'), ('small', 'big'), ('big', 'big')]
+    if quick:
+        return two
+    return two + [('huge', 'big'), ('big', 'huge'), ('big', 'small', 'small'), ('small', 'big', 'big'), ('huge', 'huge', 'small')]
+
+
+class _ChoiceWriter:
+    def __init__(self, run):
+        self.buf, self.run = bytearray(), run
+
+    def write(self, data):
+        self.buf += bytes(data)
+
+    async def drain(self):
+        c = self.run.choose(len(DRAIN))
+        for _ in range((0, 1, 3)[c]):
+            await asyncio.sleep(0)
+
+    def is_closing(self):
+        return False
+
+
+class _SendRun:
+    def __init__(self, cfgn, prefix):
+        self.cfgn, self.prefix, self.counts = cfgn, list(prefix), []
+
+    def choose(self, n):
+        i = len(self.counts)
+        self.counts.append(n)
+        c = self.prefix[i] if i < len(self.prefix) else 0
+        if c >= n:
+            raise runner.HarnessError('C13 send part: replay diverged at choice %d' % i)
+        return c
+
+    def go(self):
+        msgs = [chr(ord('a') + i) * SEND_SIZES[sz] for i, sz in enumerate(self.cfgn)]
+        ids = [_uuid.UUID(int=900 + i) for i in range(len(msgs))]
+        loop = VLoop()
+        loop.enter()
+        bad = []
+        try:
+            w = _ChoiceWriter(self)
+            tasks = [loop.create_task(ipc.stream_send_msg(w, i, m)) for i, m in zip(ids, msgs)]
+            for _ in range(10000):
+                if all(t.done() for t in tasks):
+                    break
+                loop.run_all_ready(limit=100000)
+            else:
+                bad.append(('sender-never-finishes', 'a sender is still running after 10000 loop iterations'))
+            for t in tasks:
+                if t.done() and t.exception() is not None:
+                    bad.append(('sender-raised', type(t.exception()).__name__))
+            reader = asyncio.StreamReader(loop=loop)
+            reader.feed_data(bytes(w.buf))
+            reader.feed_eof()
+            got = []
+
+            async def read_all():
+                for _ in msgs:
+                    got.append(await ipc.stream_recv_msg(reader))
+            rt = loop.create_task(read_all())
+            for _ in range(1000):
+                if rt.done():
+                    break
+                loop.run_all_ready(limit=100000)
+            if not rt.done() or rt.exception() is not None:
+                bad.append(('frames-not-intact', 'after %d of %d messages the byte stream written to the connection does not '
+                            'decode: %s' % (len(got), len(msgs), type(rt.exception()).__name__ if rt.done() else 'reader waits for more')))
+                if not rt.done():
+                    rt.cancel()
+                    loop.run_all_ready()
+            else:
+                want = sorted((i, m) for i, m in zip(ids, msgs))
+                have = sorted((i, m) for i, m in got)
+                if want != have:
+                    bad.append(('messages-changed', 'received %r' % ([(str(i)[-3:], m[:2] + '..(%d)' % len(m)) for i, m in have],)))
+                if bytes(w.buf)[len(w.buf):] or len(w.buf) != sum(len(ipc.encode_message(i, m)) for i, m in zip(ids, msgs)):
+                    bad.append(('extra-bytes', '%d bytes written' % len(w.buf)))
+        finally:
+            loop.leave()
+            loop.close()
+        return (tuple(sorted(set(bad))), len(self.counts)), self.counts
+
+
+def send_work(items):
+    from ..vloop import explore_choices
+    out = {'send_runs': 0, 'send_drains': 0, 'violations': [], 'send_outcomes': set()}
+    for cfgn, bound in items:
+        seen = set()
+
+        def run_once(prefix, cfgn=cfgn):
+            r = _SendRun(cfgn, prefix)
+            return r.go()
+        for prefix, (bad, ndrain) in explore_choices(run_once, bound):
+            out['send_runs'] += 1
+            out['send_drains'] += ndrain
+            out['send_outcomes'].add((cfgn, bad))
+            for cls, obs in bad:
+                if (cls, obs) in seen:
+                    continue
+                seen.add((cls, obs))
+                # replayed once more: the same choices must give the same observation
+                again = _SendRun(cfgn, prefix).go()[0][0]
+                if (cls, obs) not in again:
+                    raise runner.HarnessError('C13 send part: run not reproducible %r %r' % (cfgn, prefix))
+                out['violations'].append(dict(
+                    key='send %s | drain answers %s | %s' % (' + '.join(cfgn), ','.join(DRAIN[c] for c in prefix) or 'all return at once', cls),
+                    observed=obs, expected='the connection carries every sent message intact and exactly once',
+                    group=cls, case={'kind': 'send', 'config': list(cfgn), 'prefix': list(prefix)}))
+    return out
+
+
+# ---------------------------------------------------------------------------------------------
 # (a) live server
 
 def free_port():
@@ -441,6 +566,11 @@ def run(cfg):
     for part in runner.pmap(framing_work, items, cfg, chunk=1):
         runner.merge_counts(ft, part)
     rep.extend_violations(ft.get('violations', []))
+    # (c) send side
+    st = {}
+    for part in runner.pmap(send_work, [(c, cfg.pick(2, 3)) for c in send_configs(cfg.quick)], cfg, chunk=1):
+        runner.merge_counts(st, part)
+    rep.extend_violations(st.get('violations', []))
     # (a) live: stateless product over values x forms, then histories
     cases = list(FIXED_FORMS)
     for v in value_universe(cfg.quick):
@@ -477,6 +607,11 @@ def run(cfg):
         'samples': [{'client': c, 'twin': t} for _, c, t in (cases[0], cases[len(FIXED_FORMS)], cases[-1])]
         + [{'framing': 'messages %r in every split into <= 3 reads' % (_short(_frame_sets(cfg.quick)[-1]),)}],
         'exhaustive': not ht['capped'],
+        'send_configurations': len(send_configs(cfg.quick)),
+        'send_schedules': st.get('send_runs', 0),
+        'send_drain_points': st.get('send_drains', 0),
+        'send_deviation_bound_completed': cfg.pick(2, 3),
+        'send_distinct_outcomes': len(st.get('send_outcomes', ())),
         'framing_splits': ft.get('splits', 0),
         'framing_frame_sets': len(_frame_sets(cfg.quick)),
         'remote_stateless_cases': len(cases),
@@ -488,7 +623,9 @@ def run(cfg):
         'rule': 'live: every value of the transportable universe x 7 remote forms + fixed forms (undefined, errors, proxies) and '
                 'BFS over histories of remote assign/read/dict-set/dict-get/join on two names, each compared with the same '
                 'operation on a twin interpreter; framing: every pair of cut positions of each frame set, consumed by '
-                'stream_recv_msg and by NetworkClient._listen',
+                'stream_recv_msg and by NetworkClient._listen; send side: 2-3 concurrent stream_send_msg on one writer x payload '
+                'classes (small, > 64 KiB, several times that) x every sequence of drain() answers (returns / suspends 1 / suspends 3 '
+                'iterations) with at most 2 (quick) / 3 (thorough) suspensions, the written stream read back by stream_recv_msg',
     }
     rep.assumptions = [
         'live part runs on real loopback sockets, real event loops and OS scheduling with every operation issued and awaited '
@@ -509,6 +646,9 @@ def replay(cfg, path):
     case = r['case']
     if case['kind'] == 'framing':
         print(_split_case(case['msgs'], case['i'], case['j'], case['mode']))
+        return 0
+    if case['kind'] == 'send':
+        print(_SendRun(tuple(case['config']), case['prefix']).go())
         return 0
     lv = live()
     lv.local('a::0;b::0')
